@@ -248,6 +248,12 @@ func TestC04(t *testing.T) {
 			}
 			c04Addr(r, l, b, rng)
 		}
+		// genuine IPv6 addresses that differ from an IPv4-mapped one in a single bit, byte or group of the prefix
+		mn := gen.MappedNeighbours()
+		for _, a := range mn {
+			c04Addr(r, l, net.IP(a[:]), rng)
+		}
+		r.Count("mapped_prefix_neighbours", int64(len(mn)))
 		c04Addr(r, l, nil, rng)
 		l.flush()
 	}
